@@ -26,7 +26,7 @@
 //               and either starts it or completes its pending lookup; after the list is used up k=0 is used
 // Output: r=<rules in tree> <shape> <answer>;<answer>... <trace>
 //   shape   T[<action><node>,...]  node = leaf number | ![n] | &[n,...] | |[n,...] | A[n,...]   (walk of the real nodes)
-//   answer  A|D|U|R (allowed, denied, dunno, auth-required) + "i" if Answer::implicit + "@" + lastCheckedName ("-" if none)
+//   answer  A|D|U|R (allowed, denied, dunno, auth-required) + "k<kind>" if Answer::kind != 0 + "i" if Answer::implicit
 //   trace   every synthetic leaf match() call in global order: <checklist>.<leaf><+|-|~> for return 1, 0, -1
 #include <algorithm>
 #include <cstdio>
@@ -250,9 +250,6 @@ std::string answerText(const Acl::Answer &a)
     }
     if (a.kind) r += "k" + std::to_string(a.kind);
     if (a.implicit) r += "i";
-    r += "@";
-    if (a.lastCheckedName) r.append(a.lastCheckedName->rawContent(), a.lastCheckedName->length());
-    else r += "-";
     return r;
 }
 
